@@ -240,6 +240,31 @@ def run_shard(spec, tier, seed):
                 V(f"view-not-functional action={vname}", exc=f"{type(e).__name__}: {e}"[:200])
             res.cell("view:" + vname, key)
 
+        # ---------------- re-casting a vector array as another vector class (other flavor, or fewer dimensions: the higher
+        # coordinates become plain extra fields) gives what casting the plain structured array gives
+        if field_order == "canonical" and n:
+            casts = [(dim, not mom)] + [(d2, m2) for d2 in range(2, dim) for m2 in (mom, not mom)]
+            for d2, m2 in casts:
+                cls2 = getattr(vector, ("MomentumNumpy" if m2 else "VectorNumpy") + f"{d2}D")
+                ocls2 = getattr(vector, ("MomentumObject" if m2 else "VectorObject") + f"{d2}D")
+                res.evaluations += 1
+                cname2 = f"view({cls2.__name__})"
+                try:
+                    got = arr.view(cls2)
+                    want = plain.copy().view(cls2)
+                    i0 = tuple(0 for _ in shape)
+                    e_g, e_w = got[i0 if len(i0) > 1 else i0[0]], want[i0 if len(i0) > 1 else i0[0]]
+                    ok = (type(got) is cls2 and type(e_g) is ocls2 and type(e_w) is ocls2 and B.obj_stored(e_g) == B.obj_stored(e_w)
+                          and numpy.asarray(got).view(numpy.ndarray).tobytes() == numpy.asarray(want).view(numpy.ndarray).tobytes())
+                    sl = got[1:] if len(shape) == 1 else got[:, 1:]
+                    ok = ok and type(sl) is cls2 and type(pickle.loads(pickle.dumps(got))) is cls2 and type(got.copy()[i0 if len(i0) > 1 else i0[0]]) is ocls2
+                    _ = got.rho, got.phi
+                    if not ok:
+                        V(f"recast-as-another-vector-class-differs-from-casting-the-plain-array action={cname2}",
+                          got=[type(got).__name__, type(e_g).__name__, repr(B.obj_stored(e_g))[:120]], expected=[cls2.__name__, ocls2.__name__, repr(B.obj_stored(e_w))[:120]])
+                except Exception as e:
+                    V(f"recast-as-another-vector-class-not-functional action={cname2}", exc=f"{type(e).__name__}: {e}"[:200])
+                res.cell("recast:" + ("flavor" if d2 == dim else "lower-dimension"), key)
         # ---------------- coordinate-name / synonym indexing returns the stored column (same memory)
         for nm in names:
             spellings = [nm] + (list(B.MOM_SPELL[nm]) if mom else [])
